@@ -3,8 +3,9 @@
 # Runs the quick tier's exact run-index range (quick_runs, times <factor>) of every property
 # for every seed in triage mode (VERIF_COLLECT=1: keep exploring after a violation) with a
 # wall budget large enough to reach the cap. One summary line per (property, seed).
+# SWEEP_TIER=thorough with factor 5 sweeps exactly what the thorough tier executes.
 ROOT=${VERIF_ROOT:-/verif}
-seeds=$1; props=$2; workers=${3:-8}; factor=${4:-1}
+seeds=$1; props=$2; workers=${3:-8}; factor=${4:-1}; tier=${SWEEP_TIER:-quick}
 cd "$ROOT" || exit 2
 if [ "$props" = all ]; then
   props=$(python3 -c "
@@ -22,7 +23,7 @@ print(int(d['$p'].get('quick_runs',5000)*$factor), d['$p'].get('quick_s',30))")
   set -- $cap
   runs=$1; qs=$2
   for s in $seeds; do
-    out=$(VERIF_COLLECT=1 VERIF_SEED=$s ./check $p --runs $runs --budget $((qs*8)) --workers $workers 2>&1); rc=$?
+    out=$(VERIF_COLLECT=1 VERIF_SEED=$s ./check $p --tier $tier --runs $runs --budget $((qs*8*factor)) --workers $workers 2>&1); rc=$?
     echo "== $p seed=$s runs=$runs exit=$rc $(echo "$out" | grep '^check ' | cut -c1-120)"
     echo "$out" | grep -E "^VIOLATION|^  clause=|TROUBLE|NOTE:" | cut -c1-400
   done
